@@ -39,7 +39,9 @@ impl Encode for HEnc {
         let (len, val) = unsafe { (REC_LEN, REC_VAL) };
         let buf = [val; MAXREC];
         if w.write_all(&buf[..len]).is_err() {
-            return Err(anyhow::Error::new(crate::util::TagErr(9)));
+            // a failing write is outside this (fault-free) harness; constructing an anyhow error here
+            // would put anyhow's error objects among the candidates of every io::Error drop
+            crate::sym::cut();
         }
         Ok(())
     }
@@ -89,7 +91,7 @@ impl Policy for HPolicy {
                 let from = fs::path(ACTIVE);
                 let to = fs::path(ARCHIVE);
                 if std::fs::rename(&from, &to).is_err() {
-                    return Err(anyhow::Error::new(crate::util::TagErr(8)));
+                    panic!("the abstract roll failed on a fault-free disk");
                 }
             }
         }
